@@ -278,6 +278,11 @@ class Engine:
                 return z3.And(*[s.values_eq(x, y, p) for x, y in zip(a.items, b.items)]) if a.items else z3.BoolVal(True)
             sa, sb = s.as_seq(a, p), s.as_seq(b, p)
             return s.seq_eq(sa, sb)
+        if isinstance(a, SSet) and isinstance(b, SSet):
+            if a.ek != b.ek:
+                raise OutOfSubset("== between sets of different element kinds")
+            x = fresh("sx", sort_of(a.ek))
+            return z3.ForAll([x], z3.Select(a.member, x) == z3.Select(b.member, x))
         if isinstance(a, SConc) and a.v is None or isinstance(b, SConc) and b.v is None:
             # None == non-None modelled value
             other = b if (isinstance(a, SConc) and a.v is None) else a
@@ -455,6 +460,9 @@ class Engine:
             d = dict(a.d)
             d.update(b.d)
             return SDict(d)
+        if isinstance(op, ast.Sub) and isinstance(a, SSet) and isinstance(b, SSet) and a.ek == b.ek:
+            x = z3.Const("setx!", sort_of(a.ek))
+            return SSet(z3.Lambda([x], z3.And(z3.Select(a.member, x), z3.Not(z3.Select(b.member, x)))), a.ek)
         if isinstance(op, ast.Add) and isinstance(a, (SSeq, STup)) and isinstance(b, (SSeq, STup)):
             if isinstance(a, STup) and isinstance(b, STup):
                 return STup(a.items + b.items, a.pykind)
@@ -621,7 +629,7 @@ class Engine:
                 return s.lift(getattr(o.v, attr))
             except AttributeError:
                 raise OutOfSubset(f"attribute {attr} of constant {o.v!r}")
-        if isinstance(o, (SSeq, STup, SStr, SDict)):
+        if isinstance(o, (SSeq, STup, SStr, SDict, SMap, SZip)):
             return ("method", o, attr)
         raise OutOfSubset(f"attribute {attr} of {o!r}")
 
@@ -768,16 +776,19 @@ class Engine:
                 continue
             # symbolic length: evaluate on a generic element
             k = fresh("ck")
+            mark = fresh_mark()
             sub = p1.fork()
             base = len(sub.pc)
             sub.pc.append(z3.And(0 <= k, k < xs.n))
             s.assign(g.target, xs.at(k), sub)
             s._exc.append([])
-            branches = []
+            branches, dropped = [], []
             for cv, q in (s.ev_list(g.ifs, sub) if g.ifs else [([], sub)]):
                 c = z3.And(*[s.truth(x) for x in cv]) if cv else z3.BoolVal(True)
                 qa = q.fork()
                 qa.pc.append(c)
+                if g.ifs:
+                    dropped.append(z3.And(*q.pc[base + 1 :], z3.Not(c)))
                 for v, q2 in s.ev(elt, qa):
                     branches.append((z3.And(*q2.pc[base + 1 :]), c, v))
             exc = s._exc.pop()
@@ -791,6 +802,23 @@ class Engine:
                 p1.pc.append(z3.ForAll([k], z3.Not(cond)))
             if not branches:
                 raise OutOfSubset("comprehension element has no normal exit")
+            # values created while evaluating the generic element (e.g. the result of .index, max) are chosen per element: they become
+            # Skolem functions of k, and their defining constraints (part of the branch conditions) are asserted for every k
+            sk_terms = [t for cond, c, v in branches for t in (cond, c, getattr(v, "t", None))] + dropped
+            consts, funs = fresh_since(mark, sk_terms)
+            if funs:
+                raise OutOfSubset("comprehension element defines a quantified value (nested filter/comprehension)")
+            if consts:
+                sub_ = [(c0, fresh_fun("sk", I, c0.sort())(k)) for c0 in consts]
+                sk = lambda t: z3.substitute(t, *sub_)  # noqa
+                nb = []
+                for cond, c, v in branches:
+                    if not hasattr(v, "t"):
+                        raise OutOfSubset("comprehension element of non-scalar kind with per-element definitions")
+                    nb.append((sk(cond), sk(c), wrap(sk(v.t), v.kind)))
+                branches = nb
+                dropped = [sk(d) for d in dropped]
+                p1.pc.append(z3.ForAll([k], z3.Implies(z3.And(0 <= k, k < xs.n), z3.Or(*([cond for cond, _, _ in branches] + dropped)))))
             kinds = {getattr(v, "kind", None) for _, _, v in branches}
             if all(isinstance(v, SConc) for _, _, v in branches):
                 s.abstracted.add("comprehension producing opaque constants/strings (result is an opaque sequence)")
